@@ -70,7 +70,9 @@ VtkCaseClause(c) ==
 
 \* ---- fragment links -----------------------------------------------------------
 LinksCaseClause(c) ==
-  IF c.rc # 0 \/ c.exc # "" THEN "oracle:LinksFailed"
+  IF Conflict(c.rows, c.suffix, c.before)
+  THEN LinksConflictClause(c.rows, c.suffix, c.before, c.after, c.rc = 0 /\ c.exc = "")
+  ELSE IF c.rc # 0 \/ c.exc # "" THEN "oracle:LinksFailed"
   ELSE LinksClause(c.rows, c.suffix, c.before, c.after)
 
 Clause(c) ==
